@@ -752,6 +752,27 @@ def evaluate_chunk(ctx, cases, cache):
     rc, log, res = sv.run_harness_sharded(ctx, "eval", hc, timeout=900)
     ctx.log("implementation ran %d programs (rc=%s)" % (len(hc), rc))
     failures = []
+    # GC factor: the same programs with a collection forced at every GC safepoint (hook H1).  The iteration lock lives in
+    # the container, which a collection copies: whatever is refused, accepted or released without collections must be
+    # refused, accepted or released in the same way with them.
+    hc_gc = [dict(h, opts=dict(h["opts"], gc_every=1)) for h in hc]
+    rc_gc, log_gc, res_gc = sv.run_harness_sharded(ctx, "eval", hc_gc, timeout=900)
+    ctx.log("implementation ran %d programs again with a collection at every safepoint (rc=%s)" % (len(hc_gc), rc_gc))
+    if rc_gc != 0:
+        failures.append({"key": "C12/harness-crash/gc", "what": "eval harness under forced collections exited with %s: %s" % (rc_gc, log_gc[-300:]),
+                         "replay": {"rc": rc_gc}})
+    else:
+        for c, r, x, xg in zip(cases, rendered, res, res_gc):
+            a, b = impl_obs(x), impl_obs(xg)
+            # a deviation that collections INTRODUCE into a run that meets the specification without them; a run that
+            # deviates already (F4: a lock retained after an error escapes a loop - a collection resets the count of a list
+            # but not the borrow flag of a dict/set) is reported or listed by the comparison below
+            if a == spec(c) and b != a:
+                tag = "panic" if isinstance(xg, dict) and "panic" in xg else "differs"
+                failures.append({"key": "C12/gc-changes-lock-behaviour/%s/container=%s/construct=%s/ctx=%s" % (tag, c["kind"], construct_class(c["construct"]), c["ctx"]),
+                                 "what": "%s over a %s (%s), operation %s: with a collection forced at every safepoint the program behaves differently: "
+                                         "without %s, with %s; specification %s" % (c["construct"], c["kind"], c["ctx"], c["op"], a, b if b is not None else json.dumps(xg)[:300], spec(c)),
+                                 "replay": {"case": c, "src": r[0], "then": r[1], "mods": r[5], "opts": {"gc_every": 1}, "impl_plain": a, "impl_gc": b}})
     if rc != 0:
         failures.append({"key": "C12/harness-crash", "what": "eval harness exited with %s: %s" % (rc, log[-300:]), "replay": {"rc": rc}})
     order, mlog = [], ""
